@@ -236,7 +236,7 @@ func runC19(c *core.Ctx, o Options) {
 			r := p.Results[0]
 			if p.Has("p.handlers[msgType]#1") {
 				n++
-				if r != "p.handlers[msgType]#0" && !(strings.HasPrefix(r, "append(make([]interface{}, ") && strings.HasSuffix(r, ", p.handlers[msgType]#0)")) {
+				if r != "p.handlers[msgType]#0" && !isOrderedCopy(p.ResVals[0], "p.handlers[msgType]#0", p) {
 					ok = false
 					why = r
 				}
@@ -301,12 +301,14 @@ func runC19(c *core.Ctx, o Options) {
 	// H4: what ServeIncoming accepted is dispatched before Run ends: every return of Run after a stop signal passes the drain
 	if run, drain, serve := c.Func("", "DefaultHandler.Run"), c.Func("", "DefaultHandler.processRemainingIncoming"), c.Func("", "DefaultHandler.serve"); c.Anchor("handler loop and drain", run != nil && drain != nil && serve != nil, "DefaultHandler.Run, processRemainingIncoming, serve", posOf(run)) {
 		var drainCall *ssa.Call
-		an.AllInstrs(run, func(in ssa.Instruction) {
-			if call, ok := in.(*ssa.Call); ok && an.StaticCallee(&call.Call) == drain {
-				drainCall = call
+		paths, _ := an.EnumPathsX(run, 256)
+		for _, p := range paths {
+			for _, in := range p.InstrSeq() {
+				if call, ok := in.(*ssa.Call); ok && an.StaticCallee(&call.Call) == drain {
+					drainCall = call
+				}
 			}
-		})
-		paths, _ := an.EnumPaths(run, 256)
+		}
 		var bad []string
 		nStop := 0
 		for _, p := range paths {
@@ -370,7 +372,7 @@ func runC19(c *core.Ctx, o Options) {
 		})
 		c.Check(okDrain && callsServe && len(loops(drain)) == 1, "H4", "DefaultHandler.processRemainingIncoming", "takes messages from the queue until it is empty and dispatches each", drain.Pos(), "for { select { case msg := <-incoming: serve(msg); default: return } }", "the drain does not empty the incoming queue through serve")
 	}
-	c.RuleMin = map[string]int{"H1": 6, "H2": 7, "H3": 3, "H4": 6}
+	c.RuleMin = map[string]int{"H1": 6, "H2": 7, "H3": 3, "H4": 3}
 	c.MinObl = 20
 }
 
@@ -392,16 +394,26 @@ func checkPoolRange(c *core.Ctx, rule string, dirs ...string) {
 			"range over the snapshot of the requested type", "Range does not walk the requested type's handlers front to back")
 		c.Check(rc.TrueNext == rc.Head && rc.Head != nil, rule, name, "continues with the next handler after a true result", rc.Call.Pos(), "true → next iteration", "a true result does not continue with the next handler")
 		if dir == "Outgoing" {
-			okF := false
-			if rc.FalseExit != nil {
-				if ret, ok := rc.FalseExit.Instrs[len(rc.FalseExit.Instrs)-1].(*ssa.Return); ok && len(ret.Results) == 1 {
-					if b, isC := an.ConstBool(ret.Results[0]); isC && !b {
-						okF = true
+			// every way on from a refusal returns false without another handler having been called (a way back to the loop head
+			// would be a path that does not return)
+			paths, _ := an.EnumPaths(fn, 32)
+			okF, nF := true, 0
+			for _, p := range paths {
+				refused := false
+				for _, a := range p.Atoms {
+					if a.Rel == "false" && strings.HasPrefix(a.L, "f(") {
+						refused = true
 					}
 				}
+				if !refused {
+					continue
+				}
+				nF++
+				if p.Return == nil || len(p.Results) != 1 || p.Results[0] != "false" || rc.FalseExit == nil || !leadsToReturnWithoutCalls(rc.FalseExit) {
+					okF = false
+				}
 			}
-			c.Check(okF, rule, name, "returns false at the first refusal", rc.Call.Pos(), "false → return false", "a refusal does not make Range return false immediately")
-			paths, _ := an.EnumPaths(fn, 32)
+			c.Check(okF && nF > 0, rule, name, "returns false at the first refusal", rc.Call.Pos(), "false → return false", "a refusal does not make Range return false immediately")
 			okT := false
 			for _, p := range paths {
 				if p.Return != nil && len(p.Results) == 1 && p.Results[0] == "true" {
@@ -418,6 +430,55 @@ func checkPoolRange(c *core.Ctx, rule string, dirs ...string) {
 			c.Check(rc.FalseExit != nil && leadsToReturnWithoutCalls(rc.FalseExit), rule, name, "stops at the first false result", rc.Call.Pos(), "false → leave the loop", "a false result does not stop the traversal")
 		}
 	}
+}
+
+// isOrderedCopy: v is a fresh slice holding exactly the elements of the list rendered src, in order: append(empty, src...) or
+// make(len(src)) filled by copy(v, src) on the path and by nothing else.
+func isOrderedCopy(v ssa.Value, src string, p *an.Path) bool {
+	emptySlice := func(x ssa.Value) bool {
+		switch y := x.(type) {
+		case *ssa.Const:
+			return y.Value == nil
+		case *ssa.MakeSlice:
+			k, isK := an.ConstInt(y.Len)
+			return isK && k == 0
+		case *ssa.Slice:
+			if al, isAl := y.X.(*ssa.Alloc); isAl {
+				if arr, isArr := an.Deref(al.Type()).Underlying().(*types.Array); isArr && arr.Len() == 0 {
+					return true
+				}
+			}
+		}
+		return false
+	}
+	switch x := an.ResolveOnPath(v, p).(type) {
+	case *ssa.Call:
+		if b, isB := x.Call.Value.(*ssa.Builtin); isB && b.Name() == "append" && len(x.Call.Args) == 2 {
+			return emptySlice(an.ResolveOnPath(x.Call.Args[0], p)) && an.RenderOnPath(x.Call.Args[1], p) == src
+		}
+	case *ssa.MakeSlice:
+		if an.RenderOnPath(x.Len, p) != "len("+src+")" {
+			return false
+		}
+		copies := 0
+		for _, in := range p.InstrSeq() {
+			switch y := in.(type) {
+			case *ssa.Call:
+				if bi, isB := y.Call.Value.(*ssa.Builtin); isB && bi.Name() == "copy" && an.ResolveOnPath(y.Call.Args[0], p) == ssa.Value(x) {
+					if an.RenderOnPath(y.Call.Args[1], p) != src {
+						return false
+					}
+					copies++
+				}
+			case *ssa.IndexAddr:
+				if an.ResolveOnPath(y.X, p) == ssa.Value(x) {
+					return false
+				}
+			}
+		}
+		return copies == 1
+	}
+	return false
 }
 
 // checkPoolGrowOnly: registered handlers stay registered, at their position. Every update of HandlerPool.handlers is
@@ -528,38 +589,102 @@ func handlerCalledWith(e an.EffCall, want ssa.Value) bool {
 // all-types handlers and then, unconditionally, to the handlers of its type.
 func checkInboundDispatch(c *core.Ctx, rule string) {
 	serve := c.Func("", "DefaultHandler.serve")
-	if c.Anchor("inbound dispatch", serve != nil, "(*DefaultHandler).serve", posOf(serve)) {
-		var lookup, rAll, rType *ssa.Call
-		eff := map[*ssa.Call]an.EffCall{}
-		an.AllInstrs(serve, func(in ssa.Instruction) {
+	if !c.Anchor("inbound dispatch", serve != nil, "(*DefaultHandler).serve", posOf(serve)) {
+		return
+	}
+	// over the interprocedural paths of serve (steps may live in helpers): a path that returns nil has looked the type up in the
+	// message, then run the all-types handlers, then — with nothing in between that could skip it — the handlers of that type
+	paths, _ := an.EnumPathsX(serve, 4096)
+	type step struct {
+		call *ssa.Call
+		eff  an.EffCall
+	}
+	var bad []string
+	nOK := 0
+	var where token.Pos = serve.Pos()
+	for _, p := range paths {
+		if p.Return == nil {
+			continue
+		}
+		var lookup, rAll, rType *step
+		order := ""
+		for _, in := range p.InstrSeq() {
 			call, ok := in.(*ssa.Call)
 			if !ok {
-				return
+				continue
 			}
 			e := an.Effective(call)
-			eff[call] = e
 			switch {
 			case an.CalleeIs(&call.Call, "fix", "ValueByTag"):
-				lookup = call
+				lookup = &step{call, e}
+				order += "L"
 			case an.CalleeIs(&e.Inner.Call, "simplefix-go", "IncomingHandlerPool.Range"):
-				if s, ok := an.ConstString(e.Arg(1)); ok && s == "ALL" {
-					rAll = call
+				key := an.ResolveOnPath(e.Arg(1), p)
+				if s, ok := an.ConstString(key); ok && s == "ALL" {
+					rAll = &step{call, e}
+					order += "A"
 				} else {
-					rType = call
+					rType = &step{call, e}
+					order += "T"
 				}
 			}
-		})
-		if c.Anchor("dispatch steps", lookup != nil && rAll != nil && rType != nil, "ValueByTag, Range(ALL), Range(type)", serve.Pos()) {
-			c.Check(an.Render(lookup) == "fix.ValueByTag(msg, h.msgTypeTag)", rule, "DefaultHandler.serve", "message type is read from the message's MsgType tag", lookup.Pos(), "ValueByTag(msg, h.msgTypeTag)", "the type is looked up as "+an.Render(lookup))
-			c.Check(an.Render(eff[rType].Arg(1)) == "string("+an.Render(lookup)+"#0)", rule, "DefaultHandler.serve", "type handlers are selected by the extracted type", rType.Pos(), "Range(string(type bytes))", "type-specific handlers are selected by "+an.Render(eff[rType].Arg(1)))
-			c.Check(an.Dominates(rAll, rType) && rAll.Block() == rType.Block(), rule, "DefaultHandler.serve", "all-types handlers first, then type handlers, unconditionally", serve.Pos(), "Range(ALL) then Range(type) in one block", "the type-specific handlers do not unconditionally follow the all-types handlers")
-			okMsg := true
-			for _, rc := range []*ssa.Call{rAll, rType} {
-				if !handlerCalledWith(eff[rc], ssa.Value(serve.Params[1])) {
-					okMsg = false
-				}
+		}
+		success := len(p.Results) == 1 && p.Results[0] == "nil"
+		if !success {
+			// a failing lookup ends the dispatch before any handler ran; anything else must not have run handlers partially
+			if strings.Contains(order, "A") != strings.Contains(order, "T") {
+				bad = append(bad, "a path runs the all-types handlers without the type's handlers (or vice versa): "+p.CondString())
 			}
-			c.Check(okMsg, rule, "DefaultHandler.serve", "every handler is offered the inbound message itself", serve.Pos(), "handle(msg)", "a handler is not called with the inbound message")
+			continue
+		}
+		nOK++
+		if order != "LAT" {
+			bad = append(bad, fmt.Sprintf("a successful path of serve performs the steps %q (L = type lookup, A = all-types handlers, T = type handlers), expected LAT: %s", order, p.CondString()))
+			continue
+		}
+		where = lookup.call.Pos()
+		if r := an.RenderOnPath(lookup.call, p); r != "fix.ValueByTag(msg, h.msgTypeTag)" {
+			bad = append(bad, "the type is looked up as "+r)
+		}
+		if r := an.RenderOnPath(rType.eff.Arg(1), p); r != "string("+an.RenderOnPath(lookup.call, p)+"#0)" {
+			bad = append(bad, "type-specific handlers are selected by "+r)
+		}
+		for _, st := range []*step{rAll, rType} {
+			if !handlerCalledWithOn(st.eff, ssa.Value(serve.Params[1]), p) {
+				bad = append(bad, "a handler is not called with the inbound message")
+			}
 		}
 	}
+	ob := c.Ob(rule, "DefaultHandler.serve", "type from the MsgType tag; all-types handlers first, then — unconditionally — the handlers of that type, each offered the message itself", where)
+	switch {
+	case nOK == 0:
+		ob.Unknown("no successful path of serve found")
+	case len(bad) > 0:
+		ob.Fail("%s", bad[0])
+	default:
+		ob.Ok("%d successful path(s): ValueByTag(msg, h.msgTypeTag) → Range(ALL) → Range(string(type)), handle(msg)", nOK)
+	}
+}
+
+// handlerCalledWithOn is handlerCalledWith with the message also resolved through the substitutions of an interprocedural path.
+func handlerCalledWithOn(e an.EffCall, want ssa.Value, p *an.Path) bool {
+	if handlerCalledWith(e, want) {
+		return true
+	}
+	if len(e.Inner.Call.Args) < 3 {
+		return false
+	}
+	cl := an.ClosureFn(e.Inner.Call.Args[2])
+	if cl == nil || len(cl.Params) != 1 {
+		return false
+	}
+	ps, _ := an.EnumPaths(cl, 8)
+	if len(ps) != 1 || len(ps[0].ResVals) != 1 {
+		return false
+	}
+	call, ok := an.Unspill(ps[0].ResVals[0]).(*ssa.Call)
+	if !ok || call.Call.IsInvoke() || call.Call.Value != ssa.Value(cl.Params[0]) || len(call.Call.Args) != 1 {
+		return false
+	}
+	return an.ResolveOnPath(e.Resolve(call.Call.Args[0]), p) == want
 }
